@@ -94,6 +94,35 @@ Theorem C07_delivered_exactly_once_filter :
 Proof. exact filter_delivered_once. Qed.
 Print Assumptions C07_delivered_exactly_once_filter.
 
+(* FilterStore (repaired _do_get, fix: 937b0a6: the matched element is removed by position).  Items are
+   compared with Leibniz equality: two puts of equal VALUE are different items as soon as they differ in
+   any component.  With items (value, put-id): if the accepted put-ids are pairwise distinct, no put-id is
+   handed out twice or handed out and still held, and every accepted put-id is held or was handed out. *)
+Theorem C07_filter_put_ids_exactly_once :
+  forall (V T : Type) (cap : option Q) (fixed : bool) (acts : list (action (FilterStore (V * T) cap))) (t0 : Q)
+         (s : state (FilterStore (V * T) cap)),
+    run fixed (init (K:=FilterStore (V * T) cap) [] t0) acts = Some s ->
+    NoDup (map snd (accepted (K:=FilterStore (V * T) cap) (fun x => x) (log s))) ->
+    NoDup (map snd (content s ++ delivered (K:=FilterStore (V * T) cap) (fun x => x) (log s))) /\
+    forall t, In t (map snd (accepted (K:=FilterStore (V * T) cap) (fun x => x) (log s))) <->
+              In t (map snd (content s ++ delivered (K:=FilterStore (V * T) cap) (fun x => x) (log s))).
+Proof. exact filter_put_ids_exactly_once. Qed.
+Print Assumptions C07_filter_put_ids_exactly_once.
+
+(* FilterStore._do_get of the pinned commit (self.items.remove(item): the first element that compares
+   EQUAL, [veq_value] = equality of values): items (1, id 0), (1, id 1) and a filter on put-id 1 -- the
+   getter receives (1, 1), which stays in the store, and (1, 0) is lost *)
+Theorem C07_filter_delivered_once_refuted_before_fix :
+  exists (acts : list (action (FilterStore_unfixed (Z * nat) veq_value None)))
+         (s : state (FilterStore_unfixed (Z * nat) veq_value None)),
+    run true (init (K:=FilterStore_unfixed (Z * nat) veq_value None) [] 0%Q) acts = Some s /\
+    ~ Permutation (accepted (K:=FilterStore_unfixed (Z * nat) veq_value None) (fun x => x) (log s))
+                  (content s ++ delivered (K:=FilterStore_unfixed (Z * nat) veq_value None) (fun x => x) (log s)) /\
+    exists x, In x (content s) /\
+              In x (delivered (K:=FilterStore_unfixed (Z * nat) veq_value None) (fun x => x) (log s)).
+Proof. exact filter_delivered_once_refuted_unfixed. Qed.
+Print Assumptions C07_filter_delivered_once_refuted_before_fix.
+
 (* every request event is triggered at most once (with exactly one value: [GGet id g v]), and a
    triggered request is in no queue any more -- for every kind of resource *)
 Theorem C07_triggered_at_most_once :
@@ -128,7 +157,8 @@ Theorem C07_prio_store_min :
 Proof. exact prio_min. Qed.
 Print Assumptions C07_prio_store_min.
 
-(* FilterStore: a get with filter f receives the first item in insertion order that f accepts *)
+(* FilterStore (repaired): a get with filter f receives the first item in insertion order that f accepts,
+   and exactly that element leaves the store (content a ++ x :: b becomes a ++ b) *)
 Theorem C07_filter_store_first_match :
   forall (A : Type) (cap : option Q) (fixed : bool) (acts : list (action (FilterStore A cap))) (t0 : Q)
          (s : state (FilterStore A cap)) (l1 : list (grant (FilterStore A cap))) (i : nat) (f : A -> bool)
